@@ -230,3 +230,14 @@ pub fn int_values(t: usize, level: Level, extra: &[i128]) -> Vec<i128> {
     }
     s.into_iter().collect()
 }
+
+#[cfg(test)]
+mod tests {
+    use super::*;
+    #[test]
+    fn sizes() {
+        for lv in [Level::Quick, Level::Mid, Level::Thorough] {
+            eprintln!("{:?}: coeffs(1,20)={} coeffs(2,50)={} small={}", lv, coeffs(1, 20, lv).len(), coeffs(2, 50, lv).len(), coeffs_small(lv).len());
+        }
+    }
+}
